@@ -203,7 +203,7 @@ def gen(tier, seed):
     for t in ["\ta b;", "\t\té b;", "é\té b;", "/* c */ a b;", "/* c\n */\ta b;", "// c\r\na b;\r\n\tc d;", "a 'x\ny' ; b c;",
               'a "x\n  y"\t; b c;', 'a "x\r\n  y"\r\n; b c;', "a\t{\n\tb\tc;\n\t}\n}", "a b\n\tc d;", "a b {\n  'k' v;\n}",
               'a "b\\\n";', 'a "\t\\q";', "a 'b", 'a\n\t"b', "a b; /* c", "a b; \t/*", "日本 語;\t日 本;", "a b;;", "{", "a {",
-              "a { b; ", "a b }", "a b c;", "a 'b' 'c';", "a 'b' + ;", "a 'b' +", "a + + ;", "a\r b;\r c d;"]:
+              "a { b; ", "a b }", "a b c;", " " * 3000 + "a b;\t}", "/*" + "é" * 2500 + "*/ a {" + "\t" * 2000 + "b 'c" + "d" * 3000 + "' } }", "a 'b' 'c';", "a 'b' + ;", "a 'b' +", "a + + ;", "a\r b;\r c d;"]:
         add("corpus", t)
     return cases, kinds
 
@@ -318,6 +318,10 @@ SEM_CASES = [
     # not singled out by the property: any position must still be a statement start of a loaded file
     ("dup-leaves", "other", True, [("a.yang", MOD("container c { leaf x { type string; } ## @@leaf x { type int8; } }"))]),
     ("dup-leaf-vs-uses", "other", True, [("a.yang", MOD("grouping g { leaf x { type string; } } container c { @@leaf x { type int8; } uses g; }"))]),
+    ("dup-uses-then-leaf", "other", True, [("a.yang", MOD("grouping g { leaf x { type string; } } container c { uses g; @@leaf x { type int8; } }"))]),
+    ("dup-augment", "other", False, [("a.yang", MOD('container c { leaf x { type string; } } ## @@augment "/c" { leaf x { type int8; } }'))]),
+    ("dup-augment-other-file", "other", False, [("a.yang", MOD('@@augment "/b2:c" { leaf x { type int8; } }', extra="import b2 { prefix b2; }")),
+                                               ("b2.yang", MOD("container c { leaf x { type string; } }", "b2"))]),
     ("dup-module", "other", False, [("a.yang", MOD("")), ("a2.yang", "@@" + MOD(""))]),
     ("config-value", "other", True, [("a.yang", MOD("leaf l { type string; @@config maybe; }"))]),
     ("mandatory-value", "other", True, [("a.yang", MOD("leaf l { type string; @@mandatory maybe; }"))]),
@@ -331,13 +335,19 @@ SEM_CASES = [
     ("import-missing", "other", False, [("a.yang", MOD("", extra="@@import nosuch { prefix n; }"))]),
 ]
 
+# source names handed to Modules.Parse: a position is <name>:<line>:<col> whatever the name looks like
+SEM_NAMES = ["%s", "models/my module %s", "models/my%%20module-%s", "vendor/100%%/%s", "50%%d-%s", "%%s%s", "%%v %%d %%q %s", "%%%%-%s",
+             "x:y-%s", "%s%%", "dir.yang/é-%s", "%%!s(MISSING)%s", "%%[1]s-%s", "%%*d%s"]
+LONG_GAPS = [lambda: " " * 65534, lambda: " " * 66000, lambda: "\t" * 66001, lambda: "/* " + "é" * 70000 + " */", lambda: " " * 131080,
+             lambda: "/*" + "x" * 66000 + "*/", lambda: " " * 65535]
+
 SEM_GAPS = [" ", "\t", "\t\t ", "\n", "\r\n", "\n\t", "\r\n    ", " // é ü\n", "/* c */ ", "/* é\n\t日本 */\t", "//\r\n\t", "\n\n\n", " /**/ /* x */ ",
             "\t/* a\r\n b */\r\n\t"]
 EXACT_CLASSES = {"unknown-field", "unknown-statement", "missing-required", "type", "typedef", "uses", "grouping", "range", "length",
                  "enum", "augment"}
 CLASS_KEYWORDS = {"type": {"type"}, "typedef": {"typedef"}, "uses": {"uses"}, "grouping": {"grouping"}, "range": {"range"},
                   "length": {"length"}, "enum": {"enum", "bit"}, "augment": {"augment"}}
-SEM_POS = re.compile(r"([A-Za-z0-9_.\-]+\.yang):(-?\d+):(-?\d+)")
+LINECOL = re.compile(r":(-?\d+):(-?\d+)(?=:|\]|\s|$)")
 KIND_FIELDS = {"belongs-to", "namespace", "prefix"}    # yang.go `required=module` / `required=submodule`
 
 
@@ -389,9 +399,11 @@ def parse_forest(obs):
     return out
 
 
-def build_sem_case(rnd, label, cls, nestable, files, counter):
+def build_sem_case(rnd, label, cls, nestable, files, counter, names=False, long_gap=None):
     """-> (files with noise, marker (file, line, col) or None)"""
     out, marker = [], None
+    pat = rnd.choice(SEM_NAMES[1:]) if names else "%s"
+    rename = {n: pat % n for n, _ in files}
     depth = rnd.choice([0, 0, 1, 2, 3]) if nestable else 0
     for name, text in files:
         # noise statements
@@ -419,10 +431,12 @@ def build_sem_case(rnd, label, cls, nestable, files, counter):
         if "@@" in text:
             off = text.index("@@")
             gapt = "".join(rnd.choice(SEM_GAPS) for _ in range(rnd.choice([0, 1, 1, 2, 3])))
+            if long_gap is not None:
+                gapt = gapt + long_gap() + rnd.choice(["", " ", "\t", "/**/"])
             text = text[:off] + gapt + text[off + 2:]
             ln, cl = linecol(text, off + len(gapt))
-            marker = (name, ln, cl)
-        out.append((name, text))
+            marker = (rename[name], ln, cl)
+        out.append((rename[name], text))
     return out, marker
 
 
@@ -431,20 +445,86 @@ def sem_case_line(files):
     return "process - %s %d %s" % (ops, len(files), " ".join("%s %s" % (hx(n), hx(t)) for n, t in files))
 
 
+# ====================================================================== family 3: very long lines
+# The extracted lexer model is quadratic in the length of the text (Coq's rev in newLexer / emit), about 70 s for a line of
+# 70,000 characters, so these few texts are not run through the model: yang.Parse is compared directly with the positions
+# the generator knows (the true linecol of the marked places, which is what T1/T2 prove the model reports).
+def long_line_cases(tier):
+    pre = [" " * 65534, " " * 65535, " " * 65536, "\t" * 66000, "/* " + "é" * 66000 + " */", "/*" + "x" * 70000 + "*/ ",
+           "@@x '" + "y" * 65530 + "';", '@@x "' + "é\\n" * 30000 + '" ;\t', " " * 131071, "@@a b;" * 17000]
+    if tier == "quick":
+        pre = pre[:3] + [pre[3], pre[4], pre[7], pre[8]]
+    out = []
+    for p in pre:
+        lead = "\n\t// c\r\n" if len(out) % 2 else ""
+        # accepted: statements after column 65536, nested
+        out.append(("accept", lead + p + "@@leaf l { @@type string;\t@@é { @@x 'y'; } } @@z;"))
+        # rejected: unexpected } ; quoted keyword ; missing ; or {
+        p = p.replace("@@", "")
+        out.append(("brace", lead + p + "a b; @@}"))
+        out.append(("brace2", lead + p + "@@} a b; @@}"))
+        out.append(("quoted-keyword", lead + p + "@@'k' v;"))
+        out.append(("syntax", lead + p + "a b @@'c'@@;"))
+    return out
+
+
+def strip_markers(text):
+    """-> (text without @@, [(line, col) of every marked place])"""
+    parts = text.split("@@")
+    pos, off, acc = [], 0, parts[0]
+    for part in parts[1:]:
+        pos.append(linecol(acc, len(acc)))
+        acc += part
+    return acc, pos
+
+
+def run_long_lines(res, tier):
+    cases = long_line_cases(tier)
+    texts, want = [], []
+    for kind, t in cases:
+        t2, pos = strip_markers(t)
+        texts.append(t2)
+        want.append(pos)
+    go = lib.run_go(["parse " + hx(t) for t in texts])
+    checked = viol = 0
+    for (kind, _), t, pos, g in zip(cases, texts, want, go):
+        if kind == "accept":
+            got = [(l, c) for _, l, c in (parse_forest(g) or [])]
+        else:
+            got = [tuple(int(x) for x in p.split(":")) for p in g[4:].split(",") if ":" in p] if g.startswith("err ") else None
+        checked += len(pos)
+        if got != pos:
+            viol += 1
+            if viol <= 3:
+                res.violation("long line (%d characters, %s): yang.Parse reports positions %s, the text says %s"
+                              % (len(t), kind, str(got)[:200], str(pos)[:200]),
+                              dict(kind="long-line", case="parse " + hx(t), want=[list(x) for x in pos], impl=g[:400]))
+    return dict(cases=len(cases), positions_checked=checked, violations=viol, longest=max(len(t) for t in texts))
+
+
 def run_semantic(res, tier, rnd):
     n_var = 6 if tier == "quick" else 80
     built, counter = [], [0]
+    LONG = {"unk-container", "req-leaf-type", "type-unknown", "uses-unknown", "range-order", "enum-duplicate-name", "augment-missing",
+            "dup-leaves", "grouping-self", "typedef-self", "unk-statement", "length-order"}
     for label, cls, nestable, files in SEM_CASES:
         for v in range(n_var):
-            fs, marker = build_sem_case(rnd, label, cls, nestable and v > 0, files, counter)
+            # half of the variants under source names with % verbs, blanks, colons, multi-byte runes
+            fs, marker = build_sem_case(rnd, label, cls, nestable and v > 0, files, counter, names=(v % 2 == 1))
             built.append((label, cls, fs, marker))
+        if label in LONG and "@@" in "".join(t for _, t in files):
+            # the faulty statement behind more than 65535 characters on its line
+            k = sorted(LONG).index(label)
+            for lg in ([LONG_GAPS[k % len(LONG_GAPS)]] if tier == "quick" else LONG_GAPS):
+                fs, marker = build_sem_case(rnd, label, cls, False, files, counter, names=(k % 2 == 0), long_gap=lg)
+                built.append((label + ":long-line", cls, fs, marker))
     plines = [sem_case_line(fs) for _, _, fs, _ in built]
     tmp = tempfile.mkdtemp(prefix="c16cwd")
     pout = lib.run_go(plines, cwd=tmp)
     # statement lists of every file text
     texts = sorted({t for _, _, fs, _ in built for _, t in fs})
     fobs = dict(zip(texts, lib.run_go(["parse " + hx(t) for t in texts])))
-    stats = dict(cases=len(built), positions_checked=0, exact_checked=0, untriggered=0, by_class={}, unparsable_files=0, labels=len(SEM_CASES))
+    stats = dict(cases=len(built), prefix_exact=0, positions_checked=0, exact_checked=0, untriggered=0, by_class={}, unparsable_files=0, labels=len(SEM_CASES))
     viol = 0
 
     def bad(what, label, fs, extra):
@@ -475,12 +555,18 @@ def run_semantic(res, tier, rnd):
             stats["by_class"][mcls] = stats["by_class"].get(mcls, 0) + 1
             if mcls == cls or (cls == "other"):
                 triggered = True
-            for m in SEM_POS.finditer(msg):
-                fn, ln, cl = m.group(1), int(m.group(2)), int(m.group(3))
+            for m in LINECOL.finditer(msg):
+                ln, cl = int(m.group(1)), int(m.group(2))
                 stats["positions_checked"] += 1
-                if fn not in names:
-                    bad("error names %s:%d:%d, a file that was not loaded: %s" % (fn, ln, cl, msg[:200]), label, fs, dict(message=msg))
+                pre = msg[:m.start()]
+                cands = [n for n in names if pre.endswith(n)]
+                if not cands:
+                    bad("error text has a line:col (%d:%d) that is not preceded by the name of a loaded file %r: %s"
+                        % (ln, cl, sorted(names), msg[:300]), label, fs, dict(message=msg))
                     continue
+                fn = max(cands, key=len)
+                if m.start() - len(fn) == 0:
+                    stats["prefix_exact"] += 1
                 if stmts[fn] is None:
                     continue
                 here = [k for k, l2, c2 in stmts[fn] if (l2, c2) == (ln, cl)]
@@ -512,7 +598,12 @@ def run_semantic(res, tier, rnd):
                     if kw not in CLASS_KEYWORDS[mcls]:
                         bad("a %s error is reported at a %r statement (%s:%d:%d): %s" % (mcls, kw, fn, ln, cl, msg[:160]), label, fs, dict(message=msg))
                         continue
-                # (d) the single injected fault: the position is that of the marked statement
+                # (d) the single injected fault: the message starts with the position of the marked statement, name included
+                if marker and mcls == cls and cls in EXACT_CLASSES and not label.startswith("type-deviation"):
+                    if not msg.startswith("%s:%d:%d: " % marker):
+                        bad("the %s error does not start with the position of the faulty statement %s:%d:%d: %s"
+                            % (mcls, marker[0], marker[1], marker[2], msg[:300]), label, fs, dict(message=msg, expected="%s:%d:%d" % marker))
+                        continue
                 if marker and mcls == cls and cls in EXACT_CLASSES:
                     stats["exact_checked"] += 1
                     if (fn, ln, cl) != marker:
@@ -549,6 +640,7 @@ def run(res, tier, seed, proof):
             key = "%d-errors%s" % (len(ps), "+toomany" if "toomany" in ps else "")
             errclasses[key] = errclasses.get(key, 0) + 1
     sem = run_semantic(res, tier, random.Random(seed + 1))
+    longl = run_long_lines(res, tier)
     distinct = len(set(cases))
     nontriv = len({c for c, g in zip(cases, go) if (g.startswith("ok (") or (g.startswith("err") and ":" in g))})
     pick = [i for i, k in enumerate(kinds) if k in ("well-formed", "fault:bad-escape", "fault:extra-close")]
@@ -565,7 +657,7 @@ def run(res, tier, seed, proof):
                     "missing import / include; one or several files); every file:line:col anywhere in a Modules.Parse or Process error must be "
                     "a statement start of a loaded file, of the right kind for the message, and for the classes the property lists exactly "
                     "the marked faulty statement" % (4 if tier == "quick" else 5, len(FAULTS), len(SEM_CASES)),
-               mismatches=mism, model_out_of_fuel=oof, semantic_error_positions=sem, statement_positions_compared=npos, error_positions_compared=nerrpos,
+               mismatches=mism, model_out_of_fuel=oof, semantic_error_positions=sem, long_lines=longl, statement_positions_compared=npos, error_positions_compared=nerrpos,
                distribution=dict(kind_by_outcome=dist, error_lists=errclasses),
                samples=[cases[i] for i in sample_idx], sample_observations=[go[i] for i in sample_idx])
     return cov, ["UTF-8 decoding (utf8.DecodeRuneInString; invalid byte => U+FFFD of width 1) is done by the harness as Go does it and "
@@ -587,6 +679,10 @@ def replay(rep, res):
         print("was  :", rep.get("what"))
         return 1
     c = rep["case"]
+    if rep.get("kind") == "long-line":
+        g = lib.run_go([c])[0]
+        print("text of %d bytes; impl: %s\nwant positions: %s" % (len(c) // 2, g[:400], rep.get("want")))
+        return 1
     go, ml = lib.run_go([c])[0], lib.run_ml([c])[0]
     print("case :", c, "\nimpl :", go, "\nmodel:", ml)
     return 0 if go == ml else 1
